@@ -433,6 +433,19 @@ def r19_7(chk):
                     chk.unresolved("R19.7", k, mod.loc(c), "**kwargs forwarded to atomic_write")
                 else:
                     chk.decide(falsy, "R19.7", k, mod.loc(c), "no in_zip: temp file + rename", f"`{norm(c)}` passes in_zip={norm(kw) if kw is not None else ''}: the write is committed by appending to the existing archive in place (atomic_write._close_rename_zip), not by renaming a complete new file over it")
+    # the in-place zip commit is chosen by the CALLER only: __init__ never turns in_zip on from the path's suffix
+    if in_place and selects_on_in_zip:
+        from .c09 import _enclosing_tests
+
+        turns_on = []
+        for st in walk_no_nested(init):
+            if isinstance(st, ast.Assign) and any(isinstance(t, ast.Name) and t.id == "in_zip" for t in st.targets):
+                tests = _enclosing_tests(init, st)
+                caller_chose = any(("in_zip" in t.split(" and ")[0] or t.startswith("in_zip") or "isinstance(in_zip" in t) and not t.startswith("not (") and "in_zip is None" not in t for t in tests)
+                truthy_value = not (isinstance(st.value, ast.Constant) and not st.value.value)
+                if truthy_value and not caller_chose and "in_zip" not in {x.id for x in ast.walk(st.value) if isinstance(x, ast.Name)}:
+                    turns_on.append((st, tests))
+        chk.decide(not turns_on, "R19.7", key(io, "atomic_write.__init__", "in_zip is never switched on from the path"), io.loc(turns_on[0][0] if turns_on else init), "in_zip becomes truthy only when the caller passed it", f"`{norm(turns_on[0][0]) if turns_on else ''}` under {turns_on[0][1] if turns_on else ''} makes every *.zip destination use the in-place archive commit, although no caller asked for it: Table.write('x.tsv.zip') then truncates / appends to the existing archive instead of renaming a complete new one over it")
     chk.floor("R19.7", 8, "9 atomic_write sites outside util/io.py on the pinned tree")
 
 
